@@ -4,16 +4,11 @@
 
    A 2-worker parallel run (joblib threads) is compared design by design: whatever the interleaving,
    the calls of one job are its own attempts 0, 1, ... with its own re-rolled vectors, so the job of a
-   design that was started is the one-design script below, with the outcomes and the gen_vector results
+   design that was started is the one-design script `par_design_case` of Run/C05Run.v, with the outcomes and the gen_vector results
    that this design saw as tapes (its global call numbers are its attempt numbers). *)
 From Coq Require Import List ZArith Bool Floats.
 From Artap Require Export Run.C05Run.
 Import ListNotations.
-
-Definition par_design_case (signs : list bool) (v : fvec) (outs : list (outcome float))
-           (cons : list (fvec * fvec)) (tape : list fvec) : job_case :=
-  {| k_signs := signs; k_outs := outs; k_cons := cons; k_tape := tape;
-     k_ops := [OpMk (mk v [] None Empty false 7); OpEval [0%nat]] |}.
 
 Definition c06_run : job_case -> job_obs := job_run.
 Definition c06_obs_eqb : job_obs -> job_obs -> bool := job_obs_eqb.
